@@ -1,7 +1,7 @@
 //! Keyboard source (lib/src/sources/keyboard.rs) on a real Watchexec instance: the process replaces its own fd 0 by a pipe it holds the
 //! write end of, so "input arrives" and "end of input" are scripted. One process per case (EOF on fd 0 is for good): the parent mode reads
 //! case lines and re-executes itself as `wxkbd child <ops>`.
-//! case: `<id> <op;op;…>`, ops: on | off (Config::keyboard_events) | d (write bytes) | c (close the write end) | y (let everything run)
+//! case: `<id> <op;op;…>`, ops: on | off (Config::keyboard_events) | t (Config::throttle: a change of another value) | d (write bytes) | c (close the write end) | y (let everything run)
 use std::{io::{BufRead, Write}, os::fd::FromRawFd, sync::{Arc, Mutex}, time::Duration};
 use watchexec::{Config, Watchexec};
 use watchexec_events::{Keyboard, Tag};
@@ -29,6 +29,7 @@ async fn run_case(w: std::fs::File, ops: Vec<String>) -> String {
         match op.as_str() {
             "on" => { wx.config.keyboard_events(true); }
             "off" => { wx.config.keyboard_events(false); }
+            "t" => { wx.config.throttle(Duration::ZERO); }      // another configuration value changes: every worker is woken
             "d" => { if let Some(f) = w.as_mut() { f.write_all(b"some input\n").unwrap(); f.flush().unwrap(); } }
             "c" => { w = None; }
             "y" => settle().await,
